@@ -395,3 +395,58 @@ func TestC20(t *testing.T) {
 		vt.Run(t, c20Rec, c, checkC20)
 	})
 }
+
+// TestC20Large: journals of 16385, 20003 and 70003 trips (beyond 16384 and 65,536, counts that leave a remainder): a few generated
+// trips repeated under distinct UIDs, exported, read back and compared row by row.
+func TestC20Large(t *testing.T) {
+	for _, n := range []int{16385, 20003, 70003} {
+		n := n
+		t.Run(fmt.Sprint(n), func(outer *testing.T) {
+			fail := ""
+			defer func() {
+				if fail != "" {
+					outer.Fatalf("%s", fail)
+				}
+			}()
+			rapid.Check(outer, func(t *rapid.T) {
+				base := genC20(t)
+				if len(base.Trips) == 0 {
+					t.Skip("no template trip")
+				}
+				k := min(len(base.Trips), 8)
+				c := CaseC20{Zone: base.Zone, SubSec: base.SubSec}
+				short := func(s string) string {
+					if len(s) > 40 {
+						return s[:40]
+					}
+					return s
+				}
+				for i := 0; i < n; i++ {
+					tr := base.Trips[i%k]
+					tr.UID = short(tr.UID) + fmt.Sprint(i)
+					tr.TripID, tr.RouteID, tr.VehicleID = short(tr.TripID), short(tr.RouteID), short(tr.VehicleID)
+					tr.StopTimes = append([]C20StopTime(nil), tr.StopTimes...)
+					if len(tr.StopTimes) > 3 {
+						tr.StopTimes = tr.StopTimes[:3]
+					}
+					for j := range tr.StopTimes {
+						tr.StopTimes[j].StopID = short(tr.StopTimes[j].StopID)
+						if tr.StopTimes[j].Track != nil {
+							v := short(*tr.StopTimes[j].Track)
+							tr.StopTimes[j].Track = &v
+						}
+					}
+					c.Trips = append(c.Trips, tr)
+				}
+				c.Env = genEnv(t)
+				c20Rec.Eval(fmt.Sprintf("large:trips>=%d", n))
+				c20Rec.NontrivialCase(vt.Fingerprint([]any{n, c.Zone, c.SubSec, k}), func() any {
+					return map[string]any{"trips": n, "templates": k}
+				})
+				if msg := vt.Try(c20Rec, c, checkC20); msg != "" && fail == "" {
+					fail = msg
+				}
+			})
+		})
+	}
+}
